@@ -195,6 +195,19 @@ def run(ctx):
             ctx.broken('corr/core model evaluation', e.log)
             return
         failures = 0
+    # call shapes: a conforming object is accepted however it reaches its parameter (positionally, by keyword, through *args /
+    # **kwargs, next to unannotated or ignorable-hinted parameters and a hinted **kwargs, in methods, as a result)
+    from harness.shapes import run_shapes
+    rows = run_shapes()
+    ctx.evaluations += len(rows)
+    ctx.extra['call_shape_rows'] = len(rows)
+    for r in rows:
+        if r['kind'] in ('crash', 'decoration') or (r['kind'] == 'good' and (r['outcome'] != 'ok' or not r['door'])):
+            failures += 1
+            ctx.report({'clause': 'call_shape_false_alarm', 'shape': r.get('shape')}, r,
+                       'a conforming object was rejected (or the decoration failed) for one way of passing it')
+            if failures > 12:
+                break
     if proof_err is not None and not failures:
         ctx.broken(f'{PROP} ({proof_err.what})', proof_err.log)
 
@@ -204,6 +217,18 @@ def replay(ctx, path):
         body = json.load(f)
     ctx.safe_regenerate(regenerate)
     case = body['record'].get('case')
+    if body['record'].get('shape') and body['record'].get('pair'):
+        # a call-shape row: run the probe again and report the same (shape, call, pair, kind) if it still fails
+        from harness.shapes import run_shapes
+        want = body['record']
+        for r in run_shapes():
+            if all(r.get(k) == want.get(k) for k in ('shape', 'call', 'pair', 'kind')):
+                print('implementation:', json.dumps(r))
+                good = r['kind'] == 'good' and r['outcome'] == 'ok' and r['door']
+                bad = r['kind'] == 'bad' and r['outcome'] == r['where'] and not r['door']
+                if not (good or bad):
+                    ctx.report(body.get('shape') or {'clause': 'call_shape'}, r, 'the call shape still fails')
+        return
     if case:
         obs = C.run_impl_cases([case])
         print('implementation:', json.dumps(obs[0])[:3000])
